@@ -496,6 +496,85 @@ Qed.
 
 End TwoGridEfield.
 
+(* ---- Maxwell potentials: coefficients reach the kernels through map_to_full_grid, kernel-sum form ---------- *)
+Section MaxwellPotential.
+Variables (g : geom) (s : space) (quad : list (@qpt A)) (kern : @kernel A) (supp : list nat).
+Variable dist : V3 -> V3 -> A.
+Hypothesis Hsupp : NoDup supp.
+
+(* the density at rule point q of element e: sum_i mult[e,i] c[l2g[e,i]] len_i Piola_i(q) w_q J_e *)
+Definition mx_density (c : nat -> A) (e : nat) (q : @qpt A) (d : nat) : A :=
+  sumN (s_nshape s) (fun i =>
+    (((q_w q * (s_mult s e i * c (s_l2g s e i))) * g_elen g e i) * comp (piola RO g e i (q_u q) (q_v q)) d)
+    * g_intel g e).
+Definition mx_divdensity (c : nat -> A) (e : nat) (q : @qpt A) : A :=
+  sumN (s_nshape s) (fun i => two RO * ((q_w q * (s_mult s e i * c (s_l2g s e i))) * g_elen g e i)).
+
+Lemma mx_tmp1_full : forall c e q d, In e supp -> (d < 3)%nat ->
+  comp (mx_tmp1 RO g s (full_coeffs RO s supp c) e q) d = mx_density c e q d.
+Proof.
+  intros c e q d He Hd. unfold mx_tmp1, mx_density. rewrite comp_mkv by assumption.
+  apply sumN_ext. intros i Hi. rewrite full_coeffs_local by assumption. reflexivity.
+Qed.
+Lemma mx_tmp2_full : forall c e q, In e supp ->
+  mx_tmp2 RO g s (full_coeffs RO s supp c) e q = mx_divdensity c e q.
+Proof.
+  intros c e q He. unfold mx_tmp2, mx_divdensity.
+  apply sumN_ext. intros i Hi. rewrite full_coeffs_local by assumption. reflexivity.
+Qed.
+
+(* electric potential: sum over the support's quadrature points of
+   K(x,y) * (ik * density_d - (x-y)_d (ik r - 1) divdensity / (ik r^2)) *)
+Theorem efield_potential_is_kernel_sum : forall ik c pt d, (d < 3)%nat ->
+  comp (efield_potential RO g s quad kern supp dist ik (full_coeffs RO s supp c) pt) d =
+  sum (fun e => sum (fun q =>
+     kern pt (ypt RO g e q) (vzero r0) (vzero r0) *
+     (ik * mx_density c e q d
+      - ((comp (vsub rsub pt (ypt RO g e q)) d * (ik * dist pt (ypt RO g e q) - r1)) * mx_divdensity c e q)
+        * rinv ((ik * dist pt (ypt RO g e q)) * dist pt (ypt RO g e q)))) quad) supp.
+Proof.
+  intros ik c pt d Hd. unfold efield_potential. rewrite comp_mkv by assumption.
+  apply sum_ext. intros e He. apply sum_ext_all. intros q. cbv zeta. unfold k0.
+  rewrite mx_tmp1_full, mx_tmp2_full by assumption. reflexivity.
+Qed.
+
+(* magnetic potential: sum of (x-y) x (K (ik r - 1)/r^2 density) *)
+Theorem mfield_potential_is_kernel_sum : forall ik c pt d, (d < 3)%nat ->
+  comp (mfield_potential RO g s quad kern supp dist ik (full_coeffs RO s supp c) pt) d =
+  sum (fun e => sum (fun q =>
+     comp (cross3 rmul rsub (vsub rsub pt (ypt RO g e q))
+        (vscal rmul ((kern pt (ypt RO g e q) (vzero r0) (vzero r0) * (ik * dist pt (ypt RO g e q) - r1))
+                      * rinv (dist pt (ypt RO g e q) * dist pt (ypt RO g e q)))
+               (mkv (mx_density c e q)))) d) quad) supp.
+Proof.
+  intros ik c pt d Hd. unfold mfield_potential. rewrite comp_mkv by assumption.
+  apply sum_ext. intros e He. apply sum_ext_all. intros q. cbv zeta. unfold k0.
+  assert (E : mx_tmp1 RO g s (full_coeffs RO s supp c) e q = mkv (mx_density c e q)).
+  { pose proof (mx_tmp1_full c e q 0%nat He ltac:(lia)) as H0.
+    pose proof (mx_tmp1_full c e q 1%nat He ltac:(lia)) as H1.
+    pose proof (mx_tmp1_full c e q 2%nat He ltac:(lia)) as H2.
+    destruct (mx_tmp1 RO g s (full_coeffs RO s supp c) e q) as [[t0 t1] t2].
+    unfold comp, vx, vy, vz in H0, H1, H2. cbn [fst snd] in H0, H1, H2. unfold mkv. rewrite H0, H1, H2. reflexivity. }
+  rewrite E. reflexivity.
+Qed.
+
+(* exact additivity over a partition of the support, as for the scalar potentials *)
+Theorem mfield_potential_additive : forall ik x pt d (inseg : nat -> bool), (d < 3)%nat ->
+  comp (mfield_potential RO g s quad kern supp dist ik x pt) d =
+  comp (mfield_potential RO g s quad kern (filter inseg supp) dist ik x pt) d +
+  comp (mfield_potential RO g s quad kern (filter (fun e => negb (inseg e)) supp) dist ik x pt) d.
+Proof.
+  intros. unfold mfield_potential. rewrite !comp_mkv by assumption. apply sum_partition.
+Qed.
+Theorem efield_potential_additive : forall ik x pt d (inseg : nat -> bool), (d < 3)%nat ->
+  comp (efield_potential RO g s quad kern supp dist ik x pt) d =
+  comp (efield_potential RO g s quad kern (filter inseg supp) dist ik x pt) d +
+  comp (efield_potential RO g s quad kern (filter (fun e => negb (inseg e)) supp) dist ik x pt) d.
+Proof.
+  intros. unfold efield_potential. rewrite !comp_mkv by assumption. apply sum_partition.
+Qed.
+End MaxwellPotential.
+
 (* grid_to_points: point number npts*e + q is the q-th rule point of element e *)
 Theorem point_cloud_order : forall (g : geom) n (quad : list (@qpt A)) e q (d : V3) (dq : @qpt A),
   (e < n)%nat -> (q < length quad)%nat ->
@@ -522,6 +601,8 @@ Qed.
 End TwoGrids.
 
 Arguments unit_vec {A} RO.
+Arguments mx_density {A} RO.
+Arguments mx_divdensity {A} RO.
 Arguments test_fun {A} RO.
 Arguments sfac {A} RO.
 Arguments efield_vec_loc {A} RO.
